@@ -1,5 +1,6 @@
 import Dmn.Model.Sexp
 import Dmn.Driver.C16
+import Dmn.Driver.C17
 
 /-! `dmn_driver`: one request per line on stdin, one answer per line on stdout. -/
 
@@ -8,6 +9,7 @@ open Dmn
 def dispatch (line : String) : String :=
   match Sexp.parse line with
   | some (.list (.atom "c16" :: args)) => Dmn.Driver.C16.handle args
+  | some (.list (.atom "c17" :: args)) => Dmn.Driver.C17.handle args
   | some _ => "(error unknown-family)"
   | none => "(error parse)"
 
